@@ -688,6 +688,8 @@ impl LockFreePool {
             loop {
                 let current_packed = head.head.load(Ordering::Acquire);
                 let (current_head, generation) = LockFreeFreeListHead::unpack(current_packed);
+                #[cfg(zipora_verif)]
+                crate::verif_hooks::yield_point(300);
                 if current_head == u32::MAX {
                     break; // No free blocks
                 }
@@ -699,6 +701,8 @@ impl LockFreePool {
                     let ptr = memory.offset_ptr(current_head as usize) as *const u32;
                     *ptr
                 };
+                #[cfg(zipora_verif)]
+                crate::verif_hooks::yield_point(301);
                 
                 // Try to update head atomically
                 match head.head.compare_exchange_weak(
@@ -708,11 +712,15 @@ impl LockFreePool {
                     Ordering::Relaxed
                 ) {
                     Ok(_) => {
+                        #[cfg(zipora_verif)]
+                        crate::verif_hooks::yield_point(302);
                         head.count.fetch_sub(1, Ordering::Relaxed);
                         self.fragment_size.fetch_sub(size, Ordering::Relaxed);
                         return Ok(MemOffset::new(current_head as usize));
                     }
                     Err(_) => {
+                        #[cfg(zipora_verif)]
+                        crate::verif_hooks::yield_point(303);
                         // Retry loop
                         std::hint::spin_loop();
                     }
@@ -720,6 +728,8 @@ impl LockFreePool {
             }
         }
 
+        #[cfg(zipora_verif)]
+        crate::verif_hooks::yield_point(304);
         // Fall back to mutex allocation
         let mut memory = self.memory.lock()
             .map_err(|e| ZiporaError::resource_busy(format!("Memory mutex poisoned: {}", e)))?;
@@ -742,6 +752,8 @@ impl LockFreePool {
             loop {
                 let current_packed = head.head.load(Ordering::Acquire);
                 let (current_head, generation) = LockFreeFreeListHead::unpack(current_packed);
+                #[cfg(zipora_verif)]
+                crate::verif_hooks::yield_point(310);
 
                 // Write next pointer into freed block
                 unsafe {
@@ -750,6 +762,8 @@ impl LockFreePool {
                     let ptr = memory.offset_ptr(offset.to_usize()) as *mut u32;
                     *ptr = current_head;
                 }
+                #[cfg(zipora_verif)]
+                crate::verif_hooks::yield_point(311);
                 
                 // Try to update head atomically
                 match head.head.compare_exchange_weak(
@@ -759,11 +773,15 @@ impl LockFreePool {
                     Ordering::Relaxed
                 ) {
                     Ok(_) => {
+                        #[cfg(zipora_verif)]
+                        crate::verif_hooks::yield_point(312);
                         head.count.fetch_add(1, Ordering::Relaxed);
                         self.fragment_size.fetch_add(size, Ordering::Relaxed);
                         return Ok(());
                     }
                     Err(_) => {
+                        #[cfg(zipora_verif)]
+                        crate::verif_hooks::yield_point(303);
                         // Retry loop
                         std::hint::spin_loop();
                     }
